@@ -77,7 +77,7 @@ Proof. exact (parent_spec_fx as_is). Qed.
 
 Definition tab15 : table := [ {| kp_pid := 1; kp_ppid := 0; kp_start := 1 |};
                               {| kp_pid := 5; kp_ppid := 1; kp_start := 10 |} ].
-Definition o5' : pobj := {| o_pid := 5; o_ident := 10; o_ctime := None |}.
+Definition o5' : pobj := {| o_pid := 5; o_ident := 10; o_ctime := None; o_known := true |}.
 
 Theorem parent_stale_cache_refuted :
   exists t cache o, wf_table t = true /\ alive_b t o = true /\
@@ -102,7 +102,7 @@ Proof. intros t cache o fuel H. unfold parents. rewrite (parent_recycled t cache
 
 Definition tab1r : table := [ {| kp_pid := 1; kp_ppid := 0; kp_start := 20 |};
                               {| kp_pid := 5; kp_ppid := 1; kp_start := 30 |} ].
-Definition o1r : pobj := {| o_pid := 1; o_ident := 10; o_ctime := None |}.
+Definition o1r : pobj := {| o_pid := 1; o_ident := 10; o_ctime := None; o_known := true |}.
 
 (* the code before repair 3959fba: the recycled lowest PID got None / [] *)
 Theorem parent_recycled_old_refuted :
@@ -504,7 +504,7 @@ Definition tree4 : table := [ {| kp_pid := 1; kp_ppid := 0; kp_start := 1 |};
                               {| kp_pid := 5; kp_ppid := 1; kp_start := 30 |};
                               {| kp_pid := 8; kp_ppid := 5; kp_start := 40 |};
                               {| kp_pid := 9; kp_ppid := 8; kp_start := 41 |} ].
-Definition o9 : pobj := {| o_pid := 9; o_ident := 41; o_ctime := None |}.
+Definition o9 : pobj := {| o_pid := 9; o_ident := 41; o_ctime := None; o_known := true |}.
 Example tree4_hyps : wf_table tree4 = true /\ alive_b tree4 o9 = true /\ cache_fresh_b tree4 None = true /\
   acyclic tree4 /\ parents as_is 5 tree4 [] [] None o9 = Val (Some [8; 5; 1]).
 Proof.
